@@ -471,7 +471,13 @@ func cmdCheck(args []string) {
 		}
 		nr, okr := 0, 0
 		for _, f := range pc.RingFuncs {
-			obs, err := eng.VerifyRing(f)
+			var obs []ringObl
+			var err error
+			if eng.contracts[f+"#exp"] != nil {
+				obs, err = eng.VerifyExp(f)
+			} else {
+				obs, err = eng.VerifyRing(f)
+			}
 			if err != nil {
 				p := writeReplay(map[string]interface{}{"property": id, "stale_ring_contract": f, "error": err.Error()})
 				lines = append(lines, fmt.Sprintf("STALE-CONTRACT property=%s %v", id, err))
